@@ -20,10 +20,11 @@ THRESH = 10 ** 7
 
 BOUNDS = {
     'quick': 'density grids of shape (2,1,1), (2,2,1), (3,1,1): voxel densities any reals in [0,1000] (also totals below one) with at least one > 0; '
-             'temperature any real in (0, 100000]',
+             'temperature any real in (0, 100000]; the *_after_other_temperature jobs first query the same Volume object at a second, '
+             'independent arbitrary temperature',
     'thorough': 'free-energy grids up to 4 voxels, densities in {0} u [1e-6,10^6], temperature in (0, 10^6]; graph builder on grids up to (2,2,2)',
 }
-OUTSIDE = ['accuracy of libm log/exp (LOG/EXP are uninterpreted with the listed axioms)', 'grids above the bound']
+OUTSIDE = ['in-place edits of Volume.data between two queries', 'accuracy of libm log/exp (LOG/EXP are uninterpreted with the listed axioms)', 'grids above the bound']
 ASSUMPTIONS = [
     'np.log / np.exp: uninterpreted LOG, EXP with ln x <= x-1, EXP(LOG x) = x, strict monotonicity on the arguments that occur, '
     'LOG(1)=0, ln x >= -28 for x >= 1e-12, ln x >= -56 for x >= 1e-24; np.log(0) = -inf, np.nan_to_num(+-inf) = +-largest finite double',
@@ -65,6 +66,12 @@ def fe_job(params):
             total = core.ssum(flat)
             vol = _volume(gv, x)
             try:
+                if params.get('history'):
+                    # the same Volume object was already asked for its free energy at another temperature (and for its
+                    # probabilities): the later answer must not depend on that history
+                    T0 = sym_real('temperature_before', 0, tmax, lo_strict=True)
+                    vol.get_free_energy(temperature=T0)
+                    vol.probability()
                 fe = vol.get_free_energy(temperature=T)
             except Exception as e:
                 event(f'exception:{type(e).__name__}', detail=str(e)[:200])
@@ -111,7 +118,11 @@ def fe_job_replay(params, inputs):
     import warnings
     with warnings.catch_warnings():
         warnings.simplefilter('ignore')
-        fe = gv.Volume(data=x, lattice=None).get_free_energy(temperature=T)
+        vol = gv.Volume(data=x, lattice=None)
+        if params.get('history'):
+            vol.get_free_energy(temperature=float(inputs['temperature_before']))
+            vol.probability()
+        fe = vol.get_free_energy(temperature=T)
     Fd = np.asarray(fe.data, dtype=float)
     desc = f'counts={x.ravel().tolist()} T={T}'
     if not np.all(np.isfinite(Fd)):
@@ -178,6 +189,9 @@ def jobs(tier, seed):
     else:
         cfg = [((2, 1, 1), 10 ** 6, 10 ** 6), ((2, 2, 1), 10 ** 6, 10 ** 6), ((3, 1, 1), 10 ** 6, 10 ** 6), ((1, 1, 4), 10 ** 5, 10 ** 6)]
     js = [dict(name='fe_' + 'x'.join(map(str, sh)), fn='fe_job', params=dict(shape=list(sh), cmax=c, tmax=t)) for sh, c, t in cfg]
+    for sh, c, t in cfg[:1] if tier == 'quick' else cfg[:2]:
+        js.append(dict(name='fe_' + 'x'.join(map(str, sh)) + '_after_other_temperature', fn='fe_job',
+                       params=dict(shape=list(sh), cmax=c, tmax=t, history=True)))
     gshapes = [(2, 1, 1), (2, 2, 1)] if tier == 'quick' else [(2, 1, 1), (2, 2, 1), (3, 1, 1), (2, 2, 2)]
     for sh in gshapes:
         js.append(dict(name='graph_' + 'x'.join(map(str, sh)), fn='graph_job', params=dict(shape=list(sh), diagonal=False)))
